@@ -810,6 +810,50 @@ func checkNumericEscape(w *World, r *Report, rule, construct string, cc *ast.Cas
 				}
 			}
 		case *ast.CallExpr:
+			// the digit loop in a helper of the lexer: l.countDigits(i, N, char.IsHexDigit) with `for j < n && … { j++ }` inside
+			if sel, ok := n.Fun.(*ast.SelectorExpr); ok {
+				if fobj, ok := info.Uses[sel.Sel].(*types.Func); ok && fobj.Pkg() == w.Mem.Types {
+					if hd := findFuncDecl(w.Mem, "Lexer", fobj.Name()); hd != nil && hd.Body != nil {
+						var pnames []string
+						for _, f := range hd.Type.Params.List {
+							for _, nm := range f.Names {
+								pnames = append(pnames, nm.Name)
+							}
+						}
+						bounded := map[string]bool{}
+						ast.Inspect(hd.Body, func(m ast.Node) bool {
+							if fs, ok := m.(*ast.ForStmt); ok && fs.Cond != nil {
+								ast.Inspect(fs.Cond, func(c ast.Node) bool {
+									if be, ok := c.(*ast.BinaryExpr); ok && be.Op == token.LSS {
+										if id, ok := ast.Unparen(be.Y).(*ast.Ident); ok {
+											bounded[id.Name] = true
+										}
+									}
+									return true
+								})
+							}
+							return true
+						})
+						hasPred := false
+						for _, a := range n.Args {
+							if tv, ok := info.Types[a]; ok {
+								if _, isFn := tv.Type.Underlying().(*types.Signature); isFn {
+									hasPred = true
+								}
+							}
+						}
+						for i, a := range n.Args {
+							if i < len(pnames) && bounded[pnames[i]] && hasPred {
+								if v, ok := constI(info, a); ok {
+									loopBounds = append(loopBounds, v)
+								} else {
+									loopBounds = append(loopBounds, -1)
+								}
+							}
+						}
+					}
+				}
+			}
 			if id, ok := n.Fun.(*ast.Ident); ok && id.Name == "append" && bits == 32 {
 				if _, isBuiltin := info.Uses[id].(*types.Builtin); isBuiltin {
 					nAppend++
